@@ -311,6 +311,16 @@ let eval_trlate ?(cut = false) m =
   else
   Printf.sprintf "deliv=%s ids=%s fail=%s" (b (mon_delivery res anss)) (b (mon_ids reqs)) (b (mon_fail res reqs))
 
+
+(* ------------------------------------------------------------------ trsplit *)
+let eval_trsplit m =
+  let items s = if s = "." || s = "" then [] else String.split_on_char ',' s in
+  let asked = List.map (fun x -> match String.split_on_char ':' x with
+      | [a; b] -> (z_of_hex a, z_of_hex b) | _ -> failwith "q item") (items (get "q" m)) in
+  let qas s = List.map (fun x -> match String.split_on_char ':' x with
+      | [a; b; c] -> { qa_k1 = z_of_hex a; qa_k2 = z_of_hex b; qa_val = z_of_hex c } | _ -> failwith "qa item") (items s) in
+  if mon_split asked (qas (get "bq" m)) (qas (get "d" m)) then "split=ok" else "split=BAD"
+
 let eval (op : string) (a : string list) : string =
   match op, a with
   | "wr", [own; inflight; head; endk; after] -> eval_wr own inflight head endk after
@@ -325,6 +335,10 @@ let eval (op : string) (a : string list) : string =
   | ("avopen" | "avstale"), _ -> eval_av ()
   | "trlate", _ -> eval_trlate (kv a)
   | "trcut", _ -> eval_trlate ~cut:true (kv a)
+  | "trsplit", _ -> eval_trsplit (kv a)
+  | "trpage", _ ->
+    let f = get "foreign" (kv a) in
+    if f <> "" && mon_pure (zlist_of_csv f) then "pure=ok" else "pure=BAD"
   | ("muxbig" | "trbig"), _ -> "skip"
   | _ -> "BADCASE"
 
